@@ -4,8 +4,8 @@ from __future__ import annotations
 import itertools
 import math
 
-from harness.common import Run, SRC, coq_Q, coq_Z, coq_bool, frac
-from harness.translate import pysym
+from harness.common import Run, SRC, coq_Q, coq_Z, coq_bool, coq_list, frac
+from harness.translate import pysym, c05_run, c11_run
 from harness.translate.pysym import Emit, Spec, Untranslatable, definition
 
 META = dict(
@@ -14,9 +14,13 @@ META = dict(
     level_text="Unbounded theorems: memory-less identity, convex recurrence with e_k=(k-n_burn)^-p in (0,1), unrolled convex "
                "combination (weights >= 0, sum 1), burn_in flag, power guard <-> ]0.5,1], length = explicit count or floor(frac*n). "
                "The decision rules are regenerated from mcmc_saem.py / algo_with_samplers.py on every run and proved equal to the "
-               "model; the real _maximization_step is driven over an exhaustive small grid and compared inside Coq.",
+               "model; the real _maximization_step is driven over an exhaustive small grid and compared inside Coq. "
+               "Run level (extension): on the control flow of a fit regenerated from the source (GenC11.v) the key events are, for counter "
+               "1..n_iter in order, every sampler, one statistics event, one maximisation, the temperature update, and the k-th maximisation is "
+               "handed S_k of the recurrence (C05_src_run_events, C05_src_run_schedule: every configuration, n_burn_in, power, statistic sequence); "
+               "mean_posterior / mode_posterior resolve the memory-less length through the same constructor (class hierarchy read from the source).",
     level_note="Trusted: Coq kernel; stdlib real-number axioms (sig_not_dec, sig_forall_dec, functional_extensionality_dep, classic) as "
-               "printed by Print Assumptions; python-ast translator (pysym); Coq-Interval for the generated step-size lemmas only; "
+               "printed by Print Assumptions; python-ast translators (pysym, c05_run, C11's c11_run: named events matched on normalised text); Coq-Interval for the generated step-size lemmas only; "
                "float product fl(frac*n_iter) taken from the implementation (theorem is over exact rationals); torch element-wise arithmetic.",
     design_ref="DESIGN.md section 4 C05",
 )
@@ -28,7 +32,12 @@ OBLIGATIONS = [
     "C05_tie_convexQ", "C05_tie_power_guard", "C05_tie_n_burn",
     # where the explicit count / the fraction come from: the settings object (Api/Settings.v, tied by the C13 check)
     "C05_settings_explicit_count", "C05_settings_default_fraction",
+    # the schedule ON THE RUN: control flow regenerated from the source (GenC11.v) composed with the regenerated rules (GenC05.v)
+    "C05_src_shape", "C05_src_run_events", "C05_src_run_log", "C05_src_run_schedule", "C05_src_run_schedule_example",
+    "C05_src_log_observed", "C05_src_run_unrolled",
 ]
+
+PERSO_ALGOS = ("mean_posterior", "mode_posterior")     # share AlgorithmWithSamplersMixin with the fit algorithm
 
 HEADER = """(* REGENERATED on every run from $VERIF_REPO/src/leaspy by harness/props/c05.py — do not edit *)
 From Coq Require Import ZArith Reals QArith Qreals Qround Bool.
@@ -55,8 +64,16 @@ def replace(e, old, new):
 
 
 def translate(run: Run) -> bool:
-    """Regenerate coq/gen/GenC05.v from the working tree.  False (and run.broken) when the source
-    no longer has a shape the translator understands."""
+    """Regenerate coq/gen/GenC05.v (rules of the schedule, source-level facts of harness/translate/c05_run.py) and coq/gen/GenC11.v (the
+    control flow of a fit, C11's translator) from the working tree.  False (and run.broken) when the source no longer has a shape the
+    translators understand.  Both are always attempted, so that coq/gen never keeps a file of another tree."""
+    ok5 = _translate_rules(run)
+    # the control flow of a fit (coq/gen/GenC11.v): Props/C05.v states the schedule over it
+    ok11 = c11_run.translate(run)
+    return ok5 and ok11
+
+
+def _translate_rules(run: Run) -> bool:
     try:
         samplers = pysym.load_methods(SRC / "algo" / "algo_with_samplers.py", "AlgorithmWithSamplersMixin")
         saem = pysym.load_methods(SRC / "algo" / "fit" / "mcmc_saem.py", "TensorMcmcSaemAlgorithm")
@@ -133,9 +150,18 @@ def translate(run: Run) -> bool:
         if pysym.raises(t) != pysym.const(True):
             raise Untranslatable("constructor does not refuse (None, None)")
         run.gen("GenC05", "\n".join(out))
+        # what Compose/ScheduleOnRun.v assumes of the two scheduling events of the run program, and the constructor chain of
+        # the three algorithms that share the mixin (class hierarchy read from the source)
+        prov = c05_run.run_facts()
+        for algo_name in ("mcmc_saem",) + PERSO_ALGOS:
+            prov += c05_run.constructor_chain(algo_name)
+        run.extra["c05_source_facts"] = prov
+        run.trusted.append("harness/translate/c05_run.py (python ast: shape of _maximization_step around the two named events, writers of the "
+                           "register / of n_burn_in_iter along the class bases, factory -> class -> C3 MRO -> constructor chain of mcmc_saem, "
+                           "mean_posterior, mode_posterior)")
         run.trusted.append("translator harness/translate/pysym.py + harness/props/c05.py (python ast -> Gallina for _is_burn_in, _maximization_step, the two constructors)")
         return True
-    except (Untranslatable, KeyError, OSError, SyntaxError) as e:
+    except (Untranslatable, KeyError, OSError, SyntaxError, AttributeError, IndexError, StopIteration) as e:
         run.broken("translate:GenC05", f"{type(e).__name__}: {e}", kind="broken-translation")
         return False
 
@@ -163,11 +189,18 @@ class StubModel:
         self.calls.append((suff, burn_in))
 
 
-def make_algo(n_iter, n_burn=None, frac_=None, power=0.8, extra=None):
+def make_algo(n_iter, n_burn=None, frac_=None, power=0.8, extra=None, name="mcmc_saem"):
     from leaspy.algo import AlgorithmSettings
     from leaspy.algo.fit.mcmc_saem import TensorMcmcSaemAlgorithm
     import warnings
     kw = dict(n_iter=n_iter, burn_in_step_power=power, progress_bar=False)
+    if name != "mcmc_saem":
+        # the personalisation algorithms that share the mixin: built the way the factory builds them
+        from leaspy.algo.base import get_algorithm_class
+        kw = dict(n_iter=n_iter, progress_bar=False, n_burn_in_iter=n_burn, n_burn_in_iter_frac=frac_)
+        with warnings.catch_warnings():
+            warnings.simplefilter("ignore")
+            return get_algorithm_class(name)(AlgorithmSettings(name, **kw))
     kw["n_burn_in_iter"] = n_burn
     kw["n_burn_in_iter_frac"] = frac_
     if extra:
@@ -327,24 +360,35 @@ def check(run: Run):
     fr_grid += [0.125, 0.625, 0.875, 1 / 3, 0.999, 0.0625, 0.3125, 2 / 3, 0.9995]      # fractions that are not whole percents
     n_grid = list(range(1, 60 if not thorough else 400, 1 if not thorough else 3))
     off_by_rounding = 0
-    for n_iter in n_grid:
-        for fr in fr_grid:
-            try:
-                algo = make_algo(n_iter, n_burn=None, frac_=fr)
-            except Exception as e:
-                run.fail(f"constructor-raises:{type(e).__name__}", f"n_burn_in_iter_frac={fr} refused: {type(e).__name__}: {e}",
-                         dict(n_iter=n_iter, n_burn_in_iter=None, n_burn_in_iter_frac=fr))
-                continue
-            nb = algo.algo_parameters["n_burn_in_iter"]
-            run.case(("nburn", n_iter, fr), nontrivial=0 < fr < 1)
-            # exact-rational model applied to the float product the code computes (fl(frac*n) is itself a double)
-            prod = fr * n_iter
-            ncases.append(f"({coq_Q(prod)}, {coq_Z(nb)})")
-            nmeta.append(dict(n_iter=n_iter, n_burn_in_iter_frac=fr, n_burn_in_iter=nb))
-            if nb != math.floor(frac(fr) * n_iter):
-                off_by_rounding += 1
-            if not (frac(fr) * n_iter - 1 - frac(2) ** -40 * n_iter < nb <= frac(fr) * n_iter * (1 + frac(2) ** -52)):
-                run.fail("n-burn-fraction", "memory-less length is not the configured fraction of the iterations (beyond float rounding)", nmeta[-1])
+    # the fit algorithm and the two personalisation algorithms that resolve the count through the SAME mixin constructor
+    # (c05_run.constructor_chain): explicit count kept as given, fraction -> int(frac * n_iter)
+    for algo_name in ("mcmc_saem",) + PERSO_ALGOS:
+        tag = "" if algo_name == "mcmc_saem" else ":" + algo_name
+        for n_iter in (n_grid if (algo_name == "mcmc_saem" or not thorough) else n_grid[::3]):
+            for fr in fr_grid:
+                try:
+                    algo = make_algo(n_iter, n_burn=None, frac_=fr, name=algo_name)
+                except Exception as e:
+                    run.fail(f"constructor-raises:{type(e).__name__}{tag}", f"{algo_name}: n_burn_in_iter_frac={fr} refused: {type(e).__name__}: {e}",
+                             dict(algorithm=algo_name, n_iter=n_iter, n_burn_in_iter=None, n_burn_in_iter_frac=fr))
+                    continue
+                nb = algo.algo_parameters["n_burn_in_iter"]
+                run.case(("nburn", n_iter, fr) if not tag else ("nburn", algo_name, n_iter, fr), nontrivial=0 < fr < 1)
+                run.count("memoryless_length_algorithm", algo_name)
+                # exact-rational model applied to the float product the code computes (fl(frac*n) is itself a double)
+                prod = fr * n_iter
+                ncases.append(f"({coq_Q(prod)}, {coq_Z(nb) if isinstance(nb, int) and not isinstance(nb, bool) else coq_Z(-1)})")
+                nmeta.append(dict(algorithm=algo_name, n_iter=n_iter, n_burn_in_iter_frac=fr, n_burn_in_iter=nb))
+                if not isinstance(nb, int) or isinstance(nb, bool):
+                    run.fail("n-burn-fraction" + tag, f"{algo_name}: memory-less length is not an integer count", nmeta[-1])
+                    continue
+                if algo_name == "mcmc_saem" and nb != math.floor(frac(fr) * n_iter):
+                    off_by_rounding += 1
+                if not (frac(fr) * n_iter - 1 - frac(2) ** -40 * n_iter < nb <= frac(fr) * n_iter * (1 + frac(2) ** -52)):
+                    run.fail("n-burn-fraction" + tag, f"{algo_name}: memory-less length is not the configured fraction of the iterations (beyond float rounding)", nmeta[-1])
+                elif nb != int(prod):
+                    run.fail("n-burn-fraction" + tag, f"{algo_name}: memory-less length is not int(frac * n_iter)", nmeta[-1],
+                             expected=int(prod), observed=nb)
     # explicit counts on longer runs too: a count is an integer and must be kept as given, whatever n_iter (a count that goes
     # through a float — count / n_iter * n_iter — loses one for e.g. 29 of 100, 57 of 200, the odd counts above 1000 of 2000)
     explicit = [(10, 3, 0.9), (10, 0, 0.9), (7, 7, None), (5, 9, None), (10, 0, None), (10, 1, 0.0), (12, 0, 0.5)]
@@ -354,26 +398,56 @@ def check(run: Run):
     rng_x = run.rng("explicit-counts")
     explicit += [(10000, rng_x.randrange(0, 10001), None) for _ in range(300 if thorough else 60)]
     explicit += [(n, rng_x.randrange(0, n + 1), None) for n in (37, 64, 123, 365, 999, 1000, 4096) for _ in range(8)]
-    for n_iter, nbx, fr in explicit:
-        run.case(("nburn-explicit", n_iter, nbx, fr))
+    for algo_name in ("mcmc_saem",) + PERSO_ALGOS:
+        tag = "" if algo_name == "mcmc_saem" else ":" + algo_name
+        for n_iter, nbx, fr in explicit:
+            run.case(("nburn-explicit", n_iter, nbx, fr) if not tag else ("nburn-explicit", algo_name, n_iter, nbx, fr))
+            try:
+                algo = make_algo(n_iter, n_burn=nbx, frac_=fr, name=algo_name)
+            except Exception as e:
+                run.fail(f"constructor-raises:{type(e).__name__}{tag}", f"{algo_name}: explicit n_burn_in_iter={nbx} refused: {type(e).__name__}: {e}",
+                         dict(algorithm=algo_name, n_iter=n_iter, n_burn_in_iter=nbx, n_burn_in_iter_frac=fr))
+                continue
+            if algo.algo_parameters["n_burn_in_iter"] != nbx or isinstance(algo.algo_parameters["n_burn_in_iter"], bool) \
+                    or not isinstance(algo.algo_parameters["n_burn_in_iter"], int):
+                run.fail("n-burn-explicit" + tag, f"{algo_name}: explicit n_burn_in_iter not honoured",
+                         dict(algorithm=algo_name, n_iter=n_iter, n_burn_in_iter=nbx, frac=fr, resolved=algo.algo_parameters["n_burn_in_iter"]))
         try:
-            algo = make_algo(n_iter, n_burn=nbx, frac_=fr)
+            make_algo(10, n_burn=None, frac_=None, name=algo_name)
+            run.fail("n-burn-none" + tag, f"{algo_name}: (None, None) accepted", dict(algorithm=algo_name))
+        except LeaspyAlgoInputError:
+            pass
         except Exception as e:
-            run.fail(f"constructor-raises:{type(e).__name__}", f"explicit n_burn_in_iter={nbx} refused: {type(e).__name__}: {e}",
-                     dict(n_iter=n_iter, n_burn_in_iter=nbx, n_burn_in_iter_frac=fr))
-            continue
-        if algo.algo_parameters["n_burn_in_iter"] != nbx:
-            run.fail("n-burn-explicit", "explicit n_burn_in_iter not honoured",
-                     dict(n_iter=n_iter, n_burn_in_iter=nbx, frac=fr, resolved=algo.algo_parameters["n_burn_in_iter"]))
-    try:
-        make_algo(10, n_burn=None, frac_=None)
-        run.fail("n-burn-none", "(None, None) accepted", {})
-    except LeaspyAlgoInputError:
-        pass
+            run.fail(f"constructor-raises:{type(e).__name__}{tag}", f"{algo_name}: (None, None): {type(e).__name__}: {e}", dict(algorithm=algo_name))
+    # the phase test the personalisation algorithms evaluate is the mixin's: `_is_burn_in()` of the BUILT object over k = 1..n_iter
+    pcases, pmeta = [], []
+    for algo_name in PERSO_ALGOS:
+        for n_iter in range(1, 12):
+            for nbx in range(0, n_iter + 1):
+                try:
+                    algo = make_algo(n_iter, n_burn=nbx, frac_=None, name=algo_name)
+                    for k in range(1, n_iter + 1):
+                        algo.current_iteration = k
+                        f = bool(algo._is_burn_in())
+                        run.case(("perso-phase", algo_name, n_iter, nbx, k), nontrivial=k >= nbx)
+                        pcases.append(f"({coq_Z(k)}, {coq_Z(nbx)}, {coq_bool(f)})")
+                        pmeta.append(dict(algorithm=algo_name, n_iter=n_iter, n_burn_in_iter=nbx, k=k, is_burn_in=f))
+                        if f != (k <= nbx):
+                            run.fail(f"phase-test:{algo_name}:k-nb={k - nbx}", f"{algo_name}: _is_burn_in() at iteration k is not (k <= n_burn_in_iter)",
+                                     pmeta[-1], expected=k <= nbx, observed=f)
+                except Exception as e:
+                    run.fail(f"constructor-raises:{type(e).__name__}:{algo_name}", f"{algo_name}: {type(e).__name__}: {e}",
+                             dict(algorithm=algo_name, n_iter=n_iter, n_burn_in_iter=nbx, n_burn_in_iter_frac=None))
+    bad = run.vm_bad_indices("persophase", hdr, "Z * Z * bool", pcases,
+                             "(fun c => match c with (k, nb, f) => Bool.eqb (is_burn_in k nb) f && Bool.eqb (gen_is_burn_in k nb) f end)")
+    for i in bad or []:
+        m = pmeta[i]
+        run.fail(f"phase-test:{m['algorithm']}:k-nb={m['k'] - m['n_burn_in_iter']}", "personalisation: phase test differs from the model's / the regenerated `_is_burn_in`", m)
     bad = run.vm_bad_indices("nburn", hdr, "Q * Z", ncases,
                              "(fun c => match c with (x, nb) => Z.eqb (Qtrunc x) nb end)")
     for i in bad or []:
-        run.fail("n-burn-fraction", "n_burn_in_iter is not int(frac * n_iter)", nmeta[i])
+        run.fail("n-burn-fraction" + ("" if nmeta[i]["algorithm"] == "mcmc_saem" else ":" + nmeta[i]["algorithm"]),
+                 "n_burn_in_iter is not int(frac * n_iter)", nmeta[i])
     run.extra["n_burn_cases_where_float_product_rounds_below_exact_floor"] = off_by_rounding
     run.sample(dict(kind="n_burn", **nmeta[len(nmeta) // 3]))
 
@@ -395,31 +469,52 @@ def _t(v):
     return v.detach().clone()
 
 
-def real_fit_schedule(run: Run, thorough: bool):
+def real_fit_schedule(run: Run, thorough: bool, only=None):
     """Wrap _maximization_step in short real fits: the branch taken and the flag must follow the model,
     and S_k must satisfy the recurrence (float32 tolerance)."""
     import torch
     from harness import synth
     from leaspy.algo.fit.mcmc_saem import TensorMcmcSaemAlgorithm
+    from leaspy.algo.algo_with_samplers import AlgorithmWithSamplersMixin
     configs = [("logistic", 8, 3, 0.8, False), ("linear", 7, 0, 1.0, False), ("logistic", 7, 2, 0.7, True)]
     if thorough:
         configs += [("logistic", 12, 12, 0.6, False), ("shared_speed_logistic", 9, 4, 0.51, False), ("logistic", 10, 9, 0.8, False),
                     ("linear", 9, 0, 0.9, True)]
+    if only is not None:
+        configs = [only]
     orig = TensorMcmcSaemAlgorithm._maximization_step
+    trace_cases, trace_meta, mstep_cases, mstep_meta = [], [], [], []
     for kind, n_iter, nb, power, reuse in configs:
         log = []
+        ev = []          # (event code of Api/RunProg.v, self.current_iteration) of every sampler / statistics / maximisation / temperature call
+
+        def init_samplers(self, state, dataset, _ev=ev):
+            # wrap (never replace) the `sample` of THIS run's sampler objects and this object's `_update_temperature`
+            r = AlgorithmWithSamplersMixin._c05_orig_init_samplers(self, state, dataset)
+            for smp in self.samplers.values():
+                def sample(*a, _real=smp.sample, _algo=self, **k):
+                    _ev.append((11, _algo.current_iteration))
+                    return _real(*a, **k)
+                smp.sample = sample
+            def temperature(_real=self._update_temperature, _algo=self):
+                _ev.append((14, _algo.current_iteration))
+                return _real()
+            self._update_temperature = temperature
+            return r
 
         def wrapped(self, model, state, _orig=orig, _log=log):
             prev = None if getattr(self, "sufficient_statistics", None) is None else {k: _t(v) for k, v in self.sufficient_statistics.items()}
             seen = {}
             real_css = model.compute_sufficient_statistics
 
-            def css(st):
+            def css(st, _ev=ev, _algo=self):
+                _ev.append((12, _algo.current_iteration))
                 r = real_css(st)
                 seen["s"] = r
                 return r
             real_up = model.update_parameters
-            def up(st, suff, *, burn_in):
+            def up(st, suff, *, burn_in, _ev=ev, _algo=self):
+                _ev.append((13, _algo.current_iteration))
                 seen["flag"] = burn_in
                 return real_up(st, suff, burn_in=burn_in)
             model.compute_sufficient_statistics = css
@@ -434,6 +529,8 @@ def real_fit_schedule(run: Run, thorough: bool):
                              S={k: _t(v) for k, v in self.sufficient_statistics.items()}, flag=seen["flag"],
                              memoryless=self.sufficient_statistics is seen["s"]))
         TensorMcmcSaemAlgorithm._maximization_step = wrapped
+        AlgorithmWithSamplersMixin._c05_orig_init_samplers = AlgorithmWithSamplersMixin._initialize_samplers
+        TensorMcmcSaemAlgorithm._initialize_samplers = init_samplers
         try:
             if reuse:
                 # ONE algorithm object, two runs (algorithm_factory(settings); algo.run(model, dataset) twice): the schedule of the second
@@ -456,6 +553,8 @@ def real_fit_schedule(run: Run, thorough: bool):
                             algo.run(model, ds)
                             if rep == 0:
                                 del log[:]          # keep the records of the SECOND run only
+                                del ev[:]
+                            algo.__dict__.pop("_update_temperature", None)
             else:
                 synth.fit(kind, n_iter=n_iter, seed=run.seed % 1000, n_burn_in_iter=nb, n_burn_in_iter_frac=None, burn_in_step_power=power)
         except Exception as e:
@@ -464,6 +563,16 @@ def real_fit_schedule(run: Run, thorough: bool):
             continue
         finally:
             TensorMcmcSaemAlgorithm._maximization_step = orig
+            del TensorMcmcSaemAlgorithm._initialize_samplers
+            del AlgorithmWithSamplersMixin._c05_orig_init_samplers
+        # ---- the run is an execution of the program regenerated from the source (order of the events, counter seen by each)
+        cfg = dict(kind=kind, n_iter=n_iter, n_burn_in_iter=nb, burn_in_step_power=power, same_algorithm_object_run_twice=reuse)
+        run_order_oracle(run, ev, log, cfg)
+        nvs = [sum(1 for c, i in ev if c == 11 and i == j) for j in range(1, n_iter + 1)]
+        trace_cases.append(f"({n_iter}, {coq_list([str(v) for v in nvs])}, {coq_list([f'({c}, {i})' for c, i in ev])})")
+        trace_meta.append(dict(cfg, events=len(ev)))
+        mstep_cases.append(f"({n_iter}, {coq_Z(nb)}, " + coq_list([f"({int(r['k'])}, {coq_bool(r['memoryless'])}, {coq_bool(bool(r['flag']))})" for r in log]) + ")")
+        mstep_meta.append(dict(cfg, maximisations=len(log)))
         if len(log) != n_iter:
             run.fail("real-fit-iterations", f"{len(log)} maximisation steps for n_iter={n_iter}", dict(kind=kind))
         for r in log:
@@ -486,6 +595,60 @@ def real_fit_schedule(run: Run, thorough: bool):
                                  dict(kind=kind, n_iter=n_iter, n_burn_in_iter=nb, k=k, stat=name, same_algorithm_object_run_twice=reuse))
         run.sample(dict(kind="real-fit", model=kind, n_iter=n_iter, n_burn_in_iter=nb, power=power,
                         branches=["M" if r["memoryless"] else "C" for r in log]))
+    # T2, inside Coq: the recorded event sequence IS the key-event projection of the unfolded program regenerated from the source
+    # (GenC11.v), and every recorded maximisation (counter seen, branch taken, flag passed) is what the program's AMStep event at
+    # that position does with the regenerated rules (GenC05.v)
+    hdr = ("From Coq Require Import ZArith List Bool.\nFrom Leaspy Require Import Api.RunProg Compose.ScheduleOnRun Compose.ScheduleOnRunTie.\n"
+           "Local Open Scope nat_scope.\n")
+    bad = run.vm_bad_indices("runtrace", hdr, "nat * list nat * list (nat * nat)", trace_cases, "check_trace")
+    for i in bad or []:
+        run.fail("run-program-trace", "the sampler / statistics / maximisation / temperature calls of a real fit are not the events of the "
+                 "run program regenerated from the source, in its order, at its counter values", trace_meta[i])
+    bad = run.vm_bad_indices("runmsteps", hdr, "nat * Z * list (nat * bool * bool)", mstep_cases, "check_msteps")
+    for i in bad or []:
+        run.fail("run-program-maximisations", "the maximisations of a real fit (counter seen, branch, burn_in flag) are not those of the AMStep "
+                 "events of the run program with the regenerated rules", mstep_meta[i])
+    run.extra["run_program_traces"] = dict(fits=len(trace_cases), events=sum(m["events"] for m in trace_meta))
+
+
+def run_order_oracle(run: Run, ev, log, cfg):
+    """Implementation-side oracle (no Coq): in iteration j = 1..n_iter every sampler call, then ONE compute_sufficient_statistics, ONE
+    update_parameters, then the temperature update — each seeing self.current_iteration == j."""
+    names = {11: "sample", 12: "statistics", 13: "maximisation", 14: "temperature"}
+    n_iter = cfg["n_iter"]
+    # the counter seen by the j-th maximisation
+    for j, r in enumerate(log, 1):
+        if r["k"] != j:
+            run.fail(f"mstep-counter:seen-minus-ordinal={r['k'] - j}",
+                     "the j-th maximisation of the run evaluates the phase test / the step / the burn_in flag at a counter value other than j",
+                     dict(cfg, maximisation=j, current_iteration_seen=r["k"]), expected=j, observed=r["k"])
+            break
+    # split the events into iterations: an iteration ends with its maximisation.  Where the temperature update stands is NOT part
+    # of the property (it touches the temperature registers only): it is left out here — only the Coq statement says where the source has it
+    chunks, cur = [], []
+    for c, i in ev:
+        if c == 14:
+            continue
+        cur.append((c, i))
+        if c == 13:
+            chunks.append(cur)
+            cur = []
+    if cur:
+        chunks.append(cur)
+    for j, ch in enumerate(chunks, 1):
+        codes = [c for c, _ in ch]
+        ns = codes.count(11)
+        if codes != [11] * ns + [12, 13] or ns == 0:
+            shape = "-".join(names[c] for c, g in itertools.groupby(codes))
+            run.fail(f"iteration-order:{shape}", "events of one iteration are not: every sampler, then the sufficient statistics, then the maximisation",
+                     dict(cfg, iteration=j, events=[names[c] for c in codes]))
+            return
+        if any(i != j for _, i in ch):
+            run.fail("iteration-counter", "a sampler / statistics / maximisation call of iteration j does not see self.current_iteration == j",
+                     dict(cfg, iteration=j, counters=[i for _, i in ch]))
+            return
+    if len(chunks) != n_iter:
+        run.fail("real-fit-iterations", f"{len(chunks)} iterations with a maximisation for n_iter={n_iter}", dict(cfg))
 
 
 def main(run: Run):
@@ -517,6 +680,40 @@ def replay(run: Run, path: str):
     use_impl()
     d = json.load(open(path))
     inp = d.get("input") or {}
+    if isinstance(inp, dict) and inp.get("algorithm") in ("mcmc_saem",) + PERSO_ALGOS and "n_iter" in inp:
+        # a constructor case: the memory-less length resolved for (algorithm, n_iter, count, fraction)
+        name, n_iter = inp["algorithm"], int(inp["n_iter"])
+        fr = inp.get("n_burn_in_iter_frac", inp.get("frac"))
+        given = inp.get("n_burn_in_iter") if ("resolved" in inp or fr is None) else None
+        try:
+            got = make_algo(n_iter, n_burn=given, frac_=fr, name=name).algo_parameters["n_burn_in_iter"]
+        except Exception as e:
+            print(f"{name}: constructor raised {type(e).__name__}: {e}")
+            print("REPLAY FAILS")
+            return 1
+        if "is_burn_in" in inp:       # a phase-test case of a personalisation algorithm
+            algo = make_algo(n_iter, n_burn=given, frac_=None, name=name)
+            bad = 0
+            for k in range(1, n_iter + 1):
+                algo.current_iteration = k
+                f = bool(algo._is_burn_in())
+                bad += f != (k <= given)
+                print(f"{name}: k={k} n_burn_in_iter={given} _is_burn_in()={f} expected={k <= given}")
+            print("REPLAY", "FAILS" if bad else "passes")
+            return 1 if bad else 0
+        want = given if given is not None else int(fr * n_iter)
+        print(f"{name}: n_iter={n_iter} count={given} fraction={fr}: n_burn_in_iter resolved to {got}, expected {want}")
+        print("REPLAY", "FAILS" if got != want else "passes")
+        return 1 if got != want else 0
+    if isinstance(inp, dict) and "kind" in inp and "same_algorithm_object_run_twice" in inp:
+        # a real-fit configuration: re-run it with the recording wrappers and the order / counter oracles
+        real_fit_schedule(run, False, only=(inp["kind"], int(inp["n_iter"]), int(inp["n_burn_in_iter"]),
+                                            float(inp.get("burn_in_step_power", 0.8)), bool(inp["same_algorithm_object_run_twice"])))
+        for f in run._fails:
+            print(f"{f['signature']}: {f['what']} -- {f['input']}")
+        bad = bool(run._fails)
+        print("REPLAY", "FAILS" if bad else "passes")
+        return 1 if bad else 0
     if not isinstance(inp, dict) or "n_burn_in_iter" not in inp:
         print("replay: this file records a broken obligation, re-run the check itself:", [b["name"] for b in d.get("broken", [])])
         return main(run)
